@@ -67,6 +67,13 @@ def run(ctx):
                 a = dict(sh, degree=G.right_parity_degree(rng, name, dlo, dhi))
                 extra = {"max_scale": hexf(rng.choice([0.9, 1.0, 0.5]))} if rng.random() < 0.5 else {}
                 groups.append({"name": name, "args": G.enc_args(a), "extra": extra, "order": rng.sample(range(8), 8), "cheb_only": False})
+        # generators constructed with verbose=False (the constructor flag must not change any value)
+        for name in (["sign", "gibbs", "relu", "linamp"] if quick else G.ERF):
+            a = dict(G.shape_args(rng, name), degree=G.right_parity_degree(rng, name, 2, 14))
+            groups.append({"name": name, "args": G.enc_args(a), "extra": {"ctor": {"verbose": False}}, "order": rng.sample(range(8), 8), "cheb_only": False})
+        # cosine / sine of a negative time (cos is even in tau, sin odd)
+        for name, tau, eps in (("sin", -6.0, 0.1), ("sin", -2.5, 0.3), ("cos", -6.0, 0.1), ("cos", -3.0, 0.01)):
+            groups.append({"name": name, "args": G.enc_args({"tau": tau, "epsilon": eps}), "extra": {}, "order": rng.sample(range(8), 8), "cheb_only": False})
         for name in ("cos", "sin"):
             for tau, eps in ((16.0, 0.3), (0.5, 0.3), (12.0, 0.5), (8.0, 0.3), (3.0, 0.5), (1.0, 0.1)):
                 groups.append({"name": name, "args": G.enc_args({"tau": tau, "epsilon": eps}), "extra": {}, "order": rng.sample(range(8), 8), "cheb_only": False})
